@@ -396,7 +396,7 @@ func runProperty(prop *PropSpec, tier string, seed int, verbose int, only string
 				totalInstr += len(b.Instrs)
 			}
 		}
-		ex, err := newExec(lr.P, "z3", 30000)
+		ex, err := newExec(lr.P, "z3-new", 30000)
 		if err != nil {
 			fmt.Fprintln(os.Stderr, err)
 			return 2
@@ -421,24 +421,44 @@ func runProperty(prop *PropSpec, tier string, seed int, verbose int, only string
 		var jobs []Job
 		for _, h := range specs {
 			params := tierParams(h, tier)
-			n := 0
-			if h.Split != "" {
-				n = h.SplitN[tier]
+			combos := []map[string]int{{}}
+			for _, d := range h.Split {
+				n := d.N[tier]
 				if n == 0 {
-					n = h.SplitN["quick"]
+					n = d.N["quick"]
 				}
+				if n <= 1 {
+					continue
+				}
+				var nc []map[string]int
+				for _, c := range combos {
+					for i := 0; i < n; i++ {
+						m := map[string]int{}
+						for k, v := range c {
+							m[k] = v
+						}
+						m[d.Name] = i
+						nc = append(nc, m)
+					}
+				}
+				combos = nc
 			}
-			if n <= 1 {
-				jobs = append(jobs, Job{Spec: h, Params: params, Label: h.Name})
-				continue
-			}
-			for i := 0; i < n; i++ {
+			for _, c := range combos {
 				p := map[string]int{}
 				for k, v := range params {
 					p[k] = v
 				}
-				p["choice:"+h.Split] = i
-				jobs = append(jobs, Job{Spec: h, Params: p, Label: fmt.Sprintf("%s[%s=%d]", h.Name, h.Split, i)})
+				label := h.Name
+				var ks []string
+				for k := range c {
+					ks = append(ks, k)
+				}
+				sort.Strings(ks)
+				for _, k := range ks {
+					p["choice:"+k] = c[k]
+					label += fmt.Sprintf("[%s=%d]", k, c[k])
+				}
+				jobs = append(jobs, Job{Spec: h, Params: p, Label: label})
 			}
 		}
 		nw := 16
@@ -721,7 +741,7 @@ func runProperty(prop *PropSpec, tier string, seed int, verbose int, only string
 		"paths_by_end":            agg.byEnd,
 		"queries_discharged":      map[string]int{"total": agg.queries, "sat": agg.sat, "unsat": agg.unsat, "unknown": agg.unknown, "errors": agg.errors},
 		"solver_seconds":          round3(agg.solverS),
-		"solver":                  "z3 4.8.12 (one incremental process per worker; cvc5 for harnesses that say so)",
+		"solver":                  "z3 5.1.0 (z3-new; one incremental process per worker); cross-checked against z3 4.8.12 and cvc5 1.0 by `gosym selfcheck`",
 		"assertion_sites":         assertList,
 		"counterexamples_found":   len(viols),
 		"counterexamples_replayed_reproduced": reproduced,
